@@ -3043,7 +3043,9 @@ def decode_ssh_public_key(data: bytes) -> SSHKey:
         else:
             raise KeyImportError('Unknown key algorithm: ' +
                                  alg.decode('ascii', errors='replace'))
-    except PacketDecodeError:
+    except KeyImportError:
+        raise
+    except (PacketDecodeError, ValueError, OverflowError):
         raise KeyImportError('Invalid public key') from None
 
 
